@@ -13,7 +13,7 @@ RULE = ("random edit histories (1-25 calls quick, 1-60 thorough; 2-7 labels mixi
         "remove_variable (named / pop), contract, flip, fix, relabel (partial, swap, cycle, conflicting; inplace or copy), "
         "relabel_as_integers, scale (with ignored sets), update from another model, offset, resize, clear, change_vartype (inplace or "
         "copy), QM add_variable / bounds / per-variable change_vartype / default_vartype; BQM calls are routed through the base object, "
-        "a fresh .spin/.binary handle or a handle captured earlier (stale after change_vartype); ~15 % of the calls raise. After every "
+        "a fresh .spin/.binary handle or a handle captured earlier (stale after change_vartype); ~15 % of the calls raise. Iterable arguments (scale ignored_variables / ignored_interactions, the *_from loops) are passed in varying forms: list, tuple, set, frozenset, dict keys or a one-shot generator. After every "
         "call all read paths are cross-checked in the worker and the dump is compared with the Coq model's step. The cross-check includes to_numpy_vectors with every option combination (variable_order None / reversed / rotated, sort_indices, sort_labels, return_labels) on the base object and on its .spin/.binary handles: every (row label, col label, bias) triple is an interaction with that bias, each exactly once, linear vector in label order. Generated cases avoid "
         "the inputs of the reported defects (kept in corpus/C04); a float history is cut where a value needs more than 17 (float32) / "
         "44 (float64) significant bits; non-trivial = at least one successful call; distinct by case JSON")
